@@ -240,6 +240,7 @@ def gen_case(rng, size=2):
         if cands:
             nd = rng.choice(cands)
             nd["o"], nd["c"] = "abort", {"t": "null"}
+    case["falsy_instr"] = rng.random() < 0.15
     case["send_sk"] = rng.random() < 0.5
     case["mw_flavours"] = [rng.choice(MW_FLAVOURS) for _ in range(case["mws"])]
     return case
@@ -734,7 +735,7 @@ class InfraBound(Exception):
     """a bound that exists only so that the check cannot block forever"""
 
 
-def make_instr(instr, log, tracers, partial=None):
+def make_instr(instr, log, tracers, partial=None, falsy=False):
     import types
     from py_gql.execution import Instrumentation, MultiInstrumentation
     partial = partial or {}
@@ -769,6 +770,8 @@ def make_instr(instr, log, tracers, partial=None):
             cls = type("RecLeaf", (Mid,), {})
         else:
             cls = type("Rec", (Instrumentation,), {method_of(k): fn_of(k) for k in hooks})
+        if falsy:
+            cls.__len__ = lambda self: 0        # e.g. a tracer that IS the (still empty) collection of its spans: a falsy object
         inst = cls()
         inst.ident = ident
         return inst
@@ -857,7 +860,7 @@ def run_real(case, scale=1):
     rc = RunCtx(plan_of(case))
     log = rc.log
     tracers = [] if case.get("tracer") else None
-    instr = make_instr(case["instr"], log, tracers, case.get("partial"))
+    instr = make_instr(case["instr"], log, tracers, case.get("partial"), bool(case.get("falsy_instr")))
     mws = make_middlewares(case["mws"], log, case.get("mw_flavours"))
     doc = text
     if not case["doc_is_text"]:
@@ -1037,6 +1040,10 @@ def oracle(case, log, payload):
         hooks = [(e[2], e[3]) for e in log if e[0] == "h" and e[1] == ident]
         # --- stages: at most once, well bracketed, an end for every start, inside query
         st = [n for n, p in hooks if p is None]
+        if not st:
+            bad.append(("instrumentation-ignored:no-hook-fired:%s" % ("falsy-object" if case.get("falsy_instr") else "other"),
+                        "instrumentation %s received no hook at all for a request that was processed" % ident))
+            continue
         for s in STAGES:
             for pol in "+-":
                 if st.count(s + pol) > 1:
@@ -1272,6 +1279,8 @@ def shrink(case, failing, budget=60):
             d = copy.deepcopy(c); d["mws"] -= 1; d["mw_flavours"] = (d.get("mw_flavours") or [])[:d["mws"]]; yield d
         if c["instr"] != 0:
             d = copy.deepcopy(c); d["instr"] = 0; yield d
+        if c.get("falsy_instr"):
+            d = copy.deepcopy(c); d["falsy_instr"] = False; yield d
         if any(f != "function" for f in (c.get("mw_flavours") or [])):
             d = copy.deepcopy(c)
             d["mw_flavours"] = ["function"] * len(c["mw_flavours"])
@@ -1466,6 +1475,14 @@ def exhaustive_cases():
                 out.append({"config": cfg, "outcome": "exec", "doc_is_text": bool(n % 2), "serial": serial, "novalidate": False,
                             "use_var": False, "mws": n % 3, "instr": [0, 1] if n % 2 else 0, "tracer": n % 4 == 0,
                             "fields": with_abort(where), "sched": [n % 3, 1, 0] + [0] * 9})
+    # a FALSY instrumentation object (len() == 0) passed directly, stacked, nested; every outcome kind
+    n = 0
+    for cfg in CONFIGS:
+        for oc in OUTCOMES:
+            n += 1
+            out.append({"config": cfg, "outcome": oc, "doc_is_text": True, "serial": False, "novalidate": False, "use_var": oc == "vars",
+                        "mws": 1, "instr": [0, [0, 1], [[0], 1]][n % 3], "tracer": False, "falsy_instr": True,
+                        "fields": copy.deepcopy(forest[:1] if oc == "subscription-op" else forest), "sched": [0] * 12})
     # { slow abort }: a deferred field aborts the request while deferred siblings are in flight; either may complete first
     def lf(k, f, o="ret"):
         return {"k": k, "f": f, "sel": [], "o": o, "c": {"t": "leaf" if o == "ret" else "null"}}
